@@ -32,4 +32,31 @@ mpir_ui __gmpf_get_ui (mpf_srcptr f)
 __CPROVER_requires (V_WFF (f))
 __CPROVER_assigns ()
 __CPROVER_ensures (__CPROVER_return_value == ((V_EXP (f) > 0 && V_ABSIZ (f) >= V_EXP (f)) ? V_PTR (f)[(V_EXP (f) > 0 && V_ABSIZ (f) >= V_EXP (f)) ? V_ABSIZ (f) - V_EXP (f) : 0] : (V_limb) 0));
+
+/* mpf_cmp: sign of the exact difference.  Values are sign * 0.d[n-1]d[n-2]...d[0] * B^exp with d[n-1] != 0, so for equal signs the
+   larger exponent wins; for equal exponents the limb strings are compared aligned at the TOP, low zero limbs being insignificant.
+   Ghost outputs: g_zu, g_zv = number of low zero limbs of u, v (zero below at gh, limb g_z* non-zero); g_hd = highest differing index
+   inside the common top-aligned region of m = min(un-g_zu, vn-g_zv) limbs (-1: none); "equal above g_hd" is delivered at gj. */
+long g_zu, g_zv;
+#define V_UN(u)  V_ABSIZ (u)
+#define V_M(u,v) ((V_UN (u) - g_zu) < (V_UN (v) - g_zv) ? (V_UN (u) - g_zu) : (V_UN (v) - g_zv))
+#define V_CU(u,v,k) V_PTR (u)[V_UN (u) - V_M (u, v) + (k)]
+#define V_CV(u,v,k) V_PTR (v)[V_UN (v) - V_M (u, v) + (k)]
+#define V_USGN(u) (V_SIZ (u) >= 0 ? 1 : -1)
+#define V_SAMEEXP(u,v) (V_SIZ (u) != 0 && V_SIZ (v) != 0 && ((V_SIZ (u) ^ V_SIZ (v)) >= 0) && V_EXP (u) == V_EXP (v))
+int __gmpf_cmp (mpf_srcptr u, mpf_srcptr v)
+__CPROVER_requires (V_WFF (u) && V_WFF (v) && 0 <= gj && gj <= V_NMAX && 0 <= gh && gh <= V_NMAX)
+__CPROVER_assigns (g_hd, g_zu, g_zv)
+__CPROVER_ensures (((V_SIZ (u) ^ V_SIZ (v)) < 0) ==> V_SGN3 (__CPROVER_return_value) == V_USGN (u))                         /* opposite signs */
+__CPROVER_ensures ((V_SIZ (u) == 0 && V_SIZ (v) >= 0) ==> V_SGN3 (__CPROVER_return_value) == -(V_SIZ (v) != 0))
+__CPROVER_ensures ((V_SIZ (v) == 0 && V_SIZ (u) > 0) ==> V_SGN3 (__CPROVER_return_value) == 1)
+__CPROVER_ensures ((V_SIZ (u) != 0 && V_SIZ (v) != 0 && ((V_SIZ (u) ^ V_SIZ (v)) >= 0) && V_EXP (u) != V_EXP (v)) ==> V_SGN3 (__CPROVER_return_value) == (V_EXP (u) > V_EXP (v) ? V_USGN (u) : -V_USGN (u)))
+__CPROVER_ensures (V_SAMEEXP (u, v) ==> (0 <= g_zu && g_zu < V_UN (u) && V_PTR (u)[g_zu] != 0 && 0 <= g_zv && g_zv < V_UN (v) && V_PTR (v)[g_zv] != 0))
+__CPROVER_ensures ((V_SAMEEXP (u, v) && gh < g_zu) ==> V_PTR (u)[gh] == 0)
+__CPROVER_ensures ((V_SAMEEXP (u, v) && gh < g_zv) ==> V_PTR (v)[gh] == 0)
+__CPROVER_ensures (V_SAMEEXP (u, v) ==> (-1 <= g_hd && g_hd < V_M (u, v)))
+__CPROVER_ensures ((V_SAMEEXP (u, v) && g_hd >= 0) ==> (V_CU (u, v, g_hd) != V_CV (u, v, g_hd) && V_SGN3 (__CPROVER_return_value) == (V_CU (u, v, g_hd) > V_CV (u, v, g_hd) ? V_USGN (u) : -V_USGN (u))))
+__CPROVER_ensures ((V_SAMEEXP (u, v) && g_hd < gj && gj < V_M (u, v)) ==> V_CU (u, v, gj) == V_CV (u, v, gj))
+/* common part equal: the operand with further (non-zero) low limbs is larger in magnitude */
+__CPROVER_ensures ((V_SAMEEXP (u, v) && g_hd == -1) ==> V_SGN3 (__CPROVER_return_value) == ((V_UN (u) - g_zu) > (V_UN (v) - g_zv) ? V_USGN (u) : ((V_UN (u) - g_zu) < (V_UN (v) - g_zv) ? -V_USGN (u) : 0)));
 #endif
